@@ -84,6 +84,8 @@ static void Tok_Assign(var self, var obj) {
   struct Tok* t = self;
   tok_init();
   int64_t v = c_int(obj);
+  /* an element type may refuse a value: before anything has changed, as a well-behaved Assign does */
+  if (v == TOK_REFUSED) throw(ValueError, "Tok refuses the value %i", $I(v));
   if (t->id == 0) {
     if (g_tok_issued + 1 >= TOK_MAX) viol("C05", "C05:harness:token-space", "too many tokens");
     t->id = ++g_tok_issued;
